@@ -112,6 +112,51 @@ def run(ctx):
                         res.violation(case, "the answer is not an entry matching the documented pattern", impl=ans, expected=cands); continue
                     reqs.append({"op": "assets.lookup", "kind": K, "specified": spec[K], "containing": containing, "file": fname, "dirlist": listing})
                     metas.append((case, ans, sdir, (split(join(sdir, spec[K]))[0] if spec[K] else None), join, norm))
+                # a session on one object: kinds asked in random order, repeatedly, while the simfile's properties and the directory
+                # change underneath (the listing is taken once, every answer is remembered; Props/C20Session.lean)
+                try:
+                    a2 = Assets(sdir, simfile=sf, filesystem=fsys)
+                except Exception as e:
+                    res.violation({"fs": fsname, "tree": list(tree)}, "Assets() raised", impl=core.exc_name(e)); continue
+                saved = {K: sf.get(K) for K in KINDS}
+                asks, answers, first = [], [], {}
+                hist = []
+                bad = False
+                for step in range(rng.randrange(6, 14)):
+                    K = rng.choice(list(KINDS))
+                    spec_now = sf.get(K)
+                    containing = None; fname = ""; cdir = None
+                    if spec_now:
+                        cdir, fname = split(join(sdir, spec_now))
+                        if fsys.isdir(cdir): containing = fsys.listdir(cdir)
+                    try:
+                        ans = getattr(a2, KINDS[K])
+                    except Exception as e:
+                        res.violation({"fs": fsname, "listing": listing, "session": hist, "kind": K}, "asset lookup raised in a session", impl=core.exc_name(e)); bad = True; break
+                    hist.append([K, spec_now])
+                    if K in first and ans != first[K][0]:
+                        res.violation({"fs": fsname, "listing": listing, "session": list(hist)}, "the same object answers differently when asked again", impl=[first[K][0], ans]); bad = True; break
+                    first.setdefault(K, (ans, cdir))
+                    asks.append({"kind": K, "specified": spec_now, "containing": containing, "file": fname}); answers.append(ans)
+                    # the world moves on
+                    r = rng.random()
+                    if r < .35 and files:
+                        sf[rng.choice(list(KINDS))] = rng.choice(files + ["nope.png", ""])
+                    elif r < .5:
+                        newname = rng.choice(["late banner.png", "late-bg.png", "late jacket.png", "late-cd.png", "late cdtitle.png", "late.ogg"])
+                        try:
+                            if fsname == "native": open(os.path.join(sdir, newname), "w").close()
+                            else: fsys.writetext(join(sdir, newname), "")
+                        except Exception:
+                            pass
+                for K, v in saved.items():
+                    if v is None: sf.pop(K, None)
+                    else: sf[K] = v
+                if not bad and asks:
+                    res.case({"fs": fsname, "listing": listing, "session": hist}, nontrivial=len(set(h[0] for h in hist)) < len(hist)); res.traces += 1
+                    res.count("sessions")
+                    reqs.append({"op": "assets.session", "dirlist": listing, "asks": asks})
+                    metas.append(({"session": {"fs": fsname, "listing": listing, "asks": hist}}, answers, sdir, [first[q["kind"]][1] for q in asks], join, norm))
                 if fsname == "native": shutil.rmtree(root, ignore_errors=True)
         # pack banners ----------------------------------------------------------------------------------
         for i in range(ctx.scale(80, 800)):
@@ -156,6 +201,13 @@ def run(ctx):
             exp = None if m is None else os.path.normpath(join(sdir.rstrip("/"), m[1]) if m[0] else join(cdir, m[1]))
             if (None if ans is None else os.path.normpath(ans)) != exp:
                 res.tie_break("dir.banner", {"pack": sdir}, ans, m)
+            continue
+        if isinstance(case, dict) and "session" in case:
+            if m == "unmodelled" or len(m) != len(ans):
+                res.tie_break("assets.session", case, ans, m); continue
+            exp = [None if x is None else (norm(join(cd, x[1])) if x[0] == "spec" else norm(join(sdir, x[1]))) for x, cd in zip(m, cdir)]
+            if ans != exp:
+                res.tie_break("assets.session", case, ans, exp)
             continue
         if m == "unmodelled":
             res.tie_break("assets.lookup (a preset left the modelled regex fragment)", case, ans, m); continue
